@@ -18,6 +18,13 @@ def mech(tier, seed):
             dict(module="WalkerL", cfg="WalkerL_vac", workers=2, actions=[], coverage=False, expect_violation="NoLinkToRootTaken")]
 
 
+def _num(text, word):
+    """The number after a root option word, 0 when the word is absent."""
+    import re
+    m = re.search(re.escape(word) + r"(\d+)", text)
+    return int(m.group(1)) if m else 0
+
+
 def _trace_conformance(ctx, tier, seed):
     """White-box trace validation: real runs of the C18 scenarios (hooks on), with and without `symlinks`, are replayed
     through the WalkerL actions by Trace_WalkerL (implementation -> specification)."""
@@ -45,7 +52,7 @@ def _trace_conformance(ctx, tier, seed):
             events = [json.loads(x) for x in open(tf)] if os.path.exists(tf) else []
             recs.append({"id": len(recs) + 1, "world": scn["world"], "root": scn["root"], "dfs": " dfs " in run["argv"][0],
                          "follow": run["tag"] == "follow", "snapshot": snap,
-                         "min": 1 if " mindepth 1" in run["argv"][0] else 0, "max": 9 if " maxdepth 9" in run["argv"][0] else 0, "topino": str(os.stat(w.paths[0]).st_ino),
+                         "min": _num(run["argv"][0], " mindepth "), "max": _num(run["argv"][0], " maxdepth "), "topino": str(os.stat(w.paths[0]).st_ino),
                          "events": [{"ev": e["ev"], "ino": e.get("ino", ""), "reported": e.get("reported", False),
                                      "descend": e.get("descend", "")} for e in events if e["ev"] in lib.WALK_EVENTS], "argv": argv})
     res = lib.validate_traces(ctx, "Trace_WalkerL", recs, shards=8)
@@ -63,5 +70,5 @@ def generators(tier, seed):
 MANIFEST = dict(
     design_ref="DESIGN.md §5 C18",
     text="TLC enumerates link decorations of a skeleton tree (position x target kind x absolute/relative x root spelling x bfs/dfs; thorough: pairs, chains, mutual links); each is run with and without `symlinks`; Judge_C18 computes the set of real directories reachable through links as a fixpoint in TLA+ and requires the recorded rows (identified by inode) to be exactly the entries of those directories, once each, with status 0 and termination.",
-    note="Trusted: TLC, World.tla, inode identity, the 10 s bound. Depth windows are not combined with links (the statement does not define depth behind a link).",
+    note="Trusted: TLC, World.tla, inode identity, the 10 s bound. Depth windows that cut are combined with one link only; an entry behind a link is due when every route reaches it inside the window (levels counted along the route), admissible when some does.",
     technique="TLC enumeration of link graphs + paired replay + TLA+ judge (reachability fixpoint)")
